@@ -979,9 +979,9 @@ func hostC02(o *out, replay string) {
 			}
 		}
 	}
-	o.note("C02.a: %d in-process cases = all 64x64 pairs of subsets of {0..5} x (9 legacy-field variants + 4 corrupted lists + 2 GRPCServer/kinds variants); classes %s", len(casesA), fmtCounts(classes))
-	o.note("C02.a: list derivations %s", fmtCounts(corr))
-	o.note("C02.a: observation (not a finding): a chosen set mixing gRPC and net/rpc plugins under GRPCServer was announced as %s — the protocol of such a set depends on Go's map iteration order (API requires homogeneous sets)", fmtCounts(inhom))
+	o.note("C02.a: %d in-process cases = all 64x64 pairs of subsets of {0..5} x (9 legacy-field variants + 4 corrupted lists + 2 GRPCServer/kinds variants); classes %s", len(casesA), c02FmtCounts(classes))
+	o.note("C02.a: list derivations %s", c02FmtCounts(corr))
+	o.note("C02.a: observation (not a finding): a chosen set mixing gRPC and net/rpc plugins under GRPCServer was announced as %s — the protocol of such a set depends on Go's map iteration order (API requires homogeneous sets)", c02FmtCounts(inhom))
 
 	// (b) end to end
 	n := 40
@@ -1006,7 +1006,7 @@ func hostC02(o *out, replay string) {
 		}
 		classesE[negClass(c, hk)]++
 	}
-	o.note("C02.e: %d end-to-end cases (raw launch reading the handshake line + full Client with a real Cmd); classes %s", len(casesE), fmtCounts(classesE))
+	o.note("C02.e: %d end-to-end cases (raw launch reading the handshake line + full Client with a real Cmd); classes %s", len(casesE), c02FmtCounts(classesE))
 }
 
 func negClass(c *negCase, list []int) string {
@@ -1033,7 +1033,7 @@ func negClass(c *negCase, list []int) string {
 	return "two-or-more-common"
 }
 
-func fmtCounts(m map[string]int) string {
+func c02FmtCounts(m map[string]int) string {
 	var ks []string
 	for k := range m {
 		ks = append(ks, k)
